@@ -316,3 +316,60 @@ def claim_cmp(ctx, rule="R-CLAIM-CMP"):
         ctx.holds(rule, "arbitration compares Name.value of own NAME and of the frame's 8 bytes; higher value yields, lower keeps")
     else:
         ctx.unknown(rule, "arbitration branches not found (yield=%s keep=%s)" % (seen_yield, seen_keep))
+
+
+def _self_attrs(fn, ctx_types):
+    """names a method loads / stores through `self` (private names are compared unmangled)"""
+    import ast
+    out = set()
+    for n in ast.walk(fn.node):
+        if isinstance(n, ast.Attribute) and isinstance(n.value, ast.Name) and n.value.id == "self" and isinstance(n.ctx, ctx_types):
+            out.add(n.attr)
+        if isinstance(n, ast.AugAssign) and isinstance(n.target, ast.Attribute) and isinstance(n.target.value, ast.Name) and \
+                n.target.value.id == "self":
+            out.add(n.target.attr)
+    return out
+
+
+def getter_fresh(ctx, rule="R-GETTER-FRESH", classes=("MessageId", "ParameterGroupNumber", "Name", "DTC")):
+    """A getter of a codec class is a function of the object's current fields.  Either it stores nothing in the object, or what it stores
+    (a memoised result) is reset by every method that changes a field the memoised computation reads - otherwise a read, a field change
+    and a second read return the value of the OLD fields."""
+    import ast
+    P = ctx.prog
+    for cn in classes:
+        cls = P.cls(cn)
+
+        def closure(names, table, kind, seen=None):
+            # expand property names to the fields their accessor touches
+            seen = set() if seen is None else seen
+            out = set()
+            for n in names:
+                if n in table and n not in seen:
+                    seen.add(n)
+                    out |= closure(_self_attrs(table[n], kind), table, kind, seen)
+                    out.add(n)
+                else:
+                    out.add(n)
+            return out
+        for gname, g in sorted(cls.getters.items()):
+            memo = _self_attrs(g, (ast.Store,)) - set(cls.setters)
+            inst = "%s.%s" % (cn, gname)
+            if not memo:
+                ctx.holds(rule, inst, "stores nothing in the object")
+                continue
+            reads = closure(_self_attrs(g, (ast.Load,)), cls.getters, (ast.Load,)) - memo
+            bad = []
+            for mname, m in list(cls.setters.items()) + [(k, v) for k, v in cls.methods.items() if k not in cls.getters and k != "__init__"]:
+                if m is g:
+                    continue
+                direct = _self_attrs(m, (ast.Store,))
+                stores = closure(direct, cls.setters, (ast.Store,))
+                if (direct & reads) - set(cls.setters) and not memo <= stores:
+                    bad.append((mname, sorted((direct & reads) - set(cls.setters))))
+            if bad:
+                ctx.violated(rule, g, inst, "the getter keeps its result in %s; %s changes %s, which the kept result was computed from, without "
+                             "resetting it: a later read returns the value of the old fields" % (
+                                 sorted(memo), bad[0][0], bad[0][1]), g.node)
+            else:
+                ctx.holds(rule, inst, "memoised in %s, reset by every writer of its inputs" % sorted(memo))
